@@ -801,12 +801,31 @@ func solveOb(ob *Obligation, o SolveOpts) {
 		return
 	}
 	text := ob.script.render(ob, nil, nil)
+	if !ob.Cover && !o.Single && ob.script.hasBoundQuantifiers() && iteCondRe.MatchString(text) {
+		// quantified struct-slice specifications over merged states: the per-case queries are the
+		// ones E-matching decides at once, so they go first
+		o1 := o
+		if o1.TimeoutMs > 5000 {
+			o1.TimeoutMs = 5000
+		}
+		if rs, ok := solveByCases(ob, text, o1); ok {
+			ob.Status, ob.Solver, ob.Seconds, ob.Raw = rs.status, rs.solver, rs.secs, rs.out
+			return
+		}
+	}
 	r := solveText(text, obFile(o.Dir, ob), o)
 	if ob.Cover && r.status != "sat" && r.status != "unsat" {
 		// a vacuity check that ran out of time under load is retried once with a longer limit
 		o2 := o
 		o2.TimeoutMs = o.TimeoutMs * 4
 		r = solveText(text, obFile(o.Dir, ob), o2)
+	}
+	if !ob.Cover && r.status != "sat" && r.status != "unsat" {
+		// undecided: split on the conditions of the most recent state merges (E-matching does not
+		// case-split on an if-then-else between two heaps by itself); unsat in every case = unsat
+		if rs, ok := solveByCases(ob, text, o); ok {
+			r = rs
+		}
 	}
 	ob.Status, ob.Solver, ob.Seconds, ob.Raw = r.status, r.solver, r.secs, r.out
 	if ob.Cover {
